@@ -35,7 +35,7 @@ func GenUnobstructedScript(t *rapid.T, o GenOpts) *Script {
 		s.World.Queues = append(s.World.Queues, q)
 		leaves = append(leaves, q.Name)
 	}
-	s.World.PriorityClasses = []PriorityClassSpec{{"train", 50}, {"build", 100}, {"inference", 125}, {"low", 25}}
+	s.World.PriorityClasses = []PriorityClassSpec{{Name: "train", Value: 50}, {Name: "build", Value: 100}, {Name: "inference", Value: 125}, {Name: "low", Value: 25}}
 	leave := rapid.IntRange(0, 1).Draw(t, "uleave")
 	if chance(t, "ufull", 70) {
 		leave = 0
@@ -117,7 +117,7 @@ func GenUnobstructedDepartmentsScript(t *rapid.T, o GenOpts) *Script {
 			leaves = append(leaves, name)
 		}
 	}
-	s.World.PriorityClasses = []PriorityClassSpec{{"train", 50}, {"build", 100}, {"inference", 125}, {"low", 25}}
+	s.World.PriorityClasses = []PriorityClassSpec{{Name: "train", Value: 50}, {Name: "build", Value: 100}, {Name: "inference", Value: 125}, {Name: "low", Value: 25}}
 	solid := map[string]bool{}
 	if chance(t, "dsolid", 50) {
 		solid[pick(t, "dsolidwhich", "d0", "d1")] = true
